@@ -1,6 +1,7 @@
 /- `drv core`: parser of the op-file language, printer of observation lines, case runner for
    `Verif.Loop` (same line protocol as `vh core`). -/
 import Verif.Model.Loop
+import Verif.Spec.Core
 
 namespace Verif.Drv.Core
 open Verif.Loop Verif.Token Verif.Kernel
@@ -157,7 +158,24 @@ def insertSorted (e : EpEntry) : List EpEntry → List EpEntry
   | [] => [e]
   | x :: xs => if tokLt e.key x.key then e :: x :: xs else x :: insertSorted e xs
 
+def scriptText (sc : Script) : String :=
+  String.intercalate " ; " (sc.ops.map copText ++ ["ret " ++ retText sc.ret])
+
+def idleScriptText (sc : Script) : String :=
+  String.intercalate " ; " (sc.ops.map copText)
+
+def paText : PA → String
+  | .Continue => "cont" | .Reregister => "rereg" | .Disable => "disable" | .Remove => "remove"
+
 def obsText : Obs → String
+  | .exec o => "> " ++ copText o
+  | .top (.script k n sc) => s!"> script {k} {if n == 0 then "*" else toString n} : {scriptText sc}"
+  | .top (.idleScript i sc) => s!"> idlescript {i} : {idleScriptText sc}"
+  | .top .dispatch => "> dispatch"
+  | .top (.c o) => "> " ++ copText o
+  | .pe k => s!"pe {k}"
+  | .peret k (some a) => s!"peret {k} {paText a}"
+  | .peret k none => s!"peret {k} err"
   | .opRes o r =>
     let rs := match r with
       | .ok => "ok" | .err e => "err " ++ errText e | .notoken => "notoken" | .nohandle => "nohandle"
@@ -228,5 +246,174 @@ def stepLine (d : DrvSt) (line : String) : DrvSt × List String :=
         let s' := step s o
         let newObs := s'.log.drop d.printed
         ({ st := some s', printed := s'.log.length }, newObs.map obsText)
+
+end Verif.Drv.Core
+
+/-! ### parsing observation lines back (for the monitors on implementation traces) -/
+
+namespace Verif.Drv.Core
+open Verif.Loop Verif.Token Verif.Kernel
+
+def parseErr : List String → Option Err
+  | ["InvalidToken"] => some .invalidToken
+  | ["Io:EEXIST"] => some (.io .eexist) | ["Io:ENOENT"] => some (.io .enoent)
+  | ["Io:EBADF"] => some (.io .ebadf) | ["Io:other"] => some (.io .other) | ["Io:EPERM"] => some (.io .other)
+  | ["Other"] => some .other
+  | _ => none
+
+def parseTok (s : String) : Option Tok :=
+  match (s.splitOn ".").map String.toNat? with
+  | [some a, some b, some c] => some ⟨a, b, c⟩
+  | _ => none
+
+def parseBit (c : Char) : Option Bool := if c == '1' then some true else if c == '0' then some false else none
+
+def parseRW (s : String) : Option (Bool × Bool) :=
+  match s.toList with
+  | [a, b] => do let a ← parseBit a; let b ← parseBit b; pure (a, b)
+  | _ => none
+
+def parsePayload : List String → Option Payload
+  | ["unit"] => some .unit
+  | ["msg", v] => v.toNat?.map .msg
+  | ["closed"] => some .closed
+  | ["deadline", d] => (parseInt d).map .deadline
+  | ["ready", rw] => (parseRW rw).map fun (r, w) => .ready r w
+  | ["sub", j] => j.toNat?.map .sub
+  | _ => none
+
+def parsePAo : String → Option (Option PA)
+  | "cont" => some (some .Continue) | "rereg" => some (some .Reregister)
+  | "disable" => some (some .Disable) | "remove" => some (some .Remove) | "err" => some none
+  | _ => none
+
+def parseRegKind : String → Option RegKind
+  | "register" => some .register | "reregister" => some .reregister | "unregister" => some .unregister
+  | _ => none
+
+def parseOkErr : String → Option Bool
+  | "ok" => some true | "err" => some false | _ => none
+
+def parseModeLetter : String → Option Mode
+  | "L" => some .level | "E" => some .edge | "O" => some .oneshot | _ => none
+
+def kv (s key : String) : Option Nat :=
+  match s.splitOn "=" with
+  | [k, v] => if k == key then v.toNat? else none
+  | _ => none
+
+def parseObs (line : String) : Option Obs :=
+  match words line with
+  | ">" :: rest =>
+    let body := String.intercalate " " rest
+    match parseOp body with
+    | some (.c o) => some (.exec o)
+    | some o => some (.top o)
+    | none => none
+  | ["pe", k] => k.toNat?.map .pe
+  | ["peret", k, r] => do let k ← k.toNat?; let r ← parsePAo r; pure (.peret k r)
+  | "op" :: rest =>
+    -- op <text…> -> <result…>
+    let (opw, res) := rest.span (· != "->")
+    match parseCOp opw, res.drop 1 with
+    | some o, ["ok"] => some (.opRes o .ok)
+    | some o, "err" :: e => (parseErr e).map fun e => .opRes o (.err e)
+    | some o, ["notoken"] => some (.opRes o .notoken)
+    | some o, ["nohandle"] => some (.opRes o .nohandle)
+    | some o, ["fail"] => some (.opRes o .fail)
+    | some o, ["nofd"] => some (.opRes o .nofd)
+    | some o, ["nodisp"] => some (.opRes o .nodisp)
+    | some o, ["borrowed"] => some (.opRes o .borrowed)
+    | some o, ["exists"] => some (.opRes o .exists)
+    | _, _ => none
+  | ["ins", k, "ok", iv] =>
+    match k.toNat?, (iv.splitOn ".").map String.toNat? with
+    | some k, [some i, some v] => some (.ins k (.ok ⟨i, v, 0⟩))
+    | _, _ => none
+  | "ins" :: k :: "err" :: e => do let k ← k.toNat?; let e ← parseErr e; pure (.ins k (.err e))
+  | ["ins", k, "nosource"] => k.toNat?.map fun k => .ins k .nosource
+  | "cb" :: k :: p => do let k ← k.toNat?; let p ← parsePayload p; pure (.cb k p)
+  | "cbret" :: k :: r => do let k ← k.toNat?; let r ← parseRet r; pure (.cbret k r)
+  | ["reg", k, kind, sub, res] => do
+    let k ← k.toNat?
+    let kind ← parseRegKind kind
+    let j ← kv sub "sub"
+    let ok ← parseOkErr res
+    pure (.reg k kind j ok)
+  | ["bs", k, "none"] => k.toNat?.map fun k => .bs k .none
+  | ["bs", k, "err"] => k.toNat?.map fun k => .bs k .err
+  | ["bs", k, "synth", j] => do let k ← k.toNat?; let j ← j.toNat?; pure (.bs k (.synth j))
+  | "bhe" :: k :: evs => do
+    let k ← k.toNat?
+    let evs ← evs.mapM fun e =>
+      match e.splitOn ":" with
+      | [t, rw] => do let t ← parseTok t; let (r, w) ← parseRW rw; pure ({ key := t, r := r, w := w } : Event)
+      | _ => none
+    pure (.bhe k evs)
+  | ["idle", i] => i.toNat?.map .idle
+  | ["idleret", i] => i.toNat?.map .idleret
+  | ["drop", k] => k.toNat?.map .drop
+  | ["dispatch", "begin"] => some .dispatchBegin
+  | ["dispatch", "end", "ok"] => some (.dispatchEnd none)
+  | "dispatch" :: "end" :: "err" :: e => (parseErr e).map fun e => .dispatchEnd (some e)
+  | ["st", a, b, c, d, e, f, g] => do
+    let slots ← kv a "slots"; let occ ← kv b "occ"; let life ← kv c "life"; let heap ← kv d "heap"
+    let idles ← kv e "idles"; let pend ← kv f "pend"; let synth ← kv g "synth"
+    let pa : PA := match pend with | 0 => .Continue | 1 => .Reregister | 2 => .Disable | _ => .Remove
+    pure (.st { slots := slots, occ := occ, life := life, heap := heap, idles := idles, pend := pa, synth := synth })
+  | "ep" :: es => do
+    let es ← es.mapM fun e =>
+      match e.splitOn "/" with
+      | [t, rw, m] => do
+        let t ← parseTok t; let (r, w) ← parseRW rw
+        let m ← parseModeLetter m
+        pure ({ fd := 0, key := t, r := r, w := w, mode := m } : EpEntry)
+      | _ => none
+    pure (.ep es)
+  | ["panic", "Borrow"] => some (.panic .borrow)
+  | ["panic", "Unreachable"] => some (.panic .unreachable)
+  | ["panic", "SubIdOverflow"] => some (.panic .subIdOverflow)
+  | ["panic", _] => some (.panic .borrow)
+  | ["abort"] => some .abort
+  | ["end"] => some .caseEnd
+  | ["loopdropped"] => some .loopDropped
+  | _ => none
+
+open Verif.Spec.Core in
+def propName : PropId → String
+  | .C01 => "C01" | .C02 => "C02" | .C05 => "C05" | .C06 => "C06" | .C07 => "C07" | .C08 => "C08"
+  | .C09 => "C09" | .C13 => "C13" | .C14 => "C14" | .C15 => "C15" | .C16 => "C16"
+
+open Verif.Spec.Core in
+structure MonSt where
+  t : Option T := none
+  bad : List String := []
+
+open Verif.Spec.Core in
+/-- `drv coremon`: one line per case — `ok wf=<b>` or `viol <Cxx>@<obs index> <why> | …`;
+    unparsable observation lines are reported, never skipped silently. -/
+def monLine (m : MonSt) (line : String) : MonSt × List String :=
+  match words line with
+  | [] => (m, [])
+  | "case" :: _ => ({ t := some {}, bad := [] }, [])
+  | ["timing-inconclusive"] => (m, [])
+  | ws =>
+    match m.t with
+    | none => (m, [])
+    | some t =>
+      match parseObs line with
+      | none =>
+        if ws.head? == some "drop" || ws.head? == some "bad-op" then (m, [])
+        else ({ m with bad := m.bad ++ [line] }, [])
+      | some x =>
+        let t' := onObs t x
+        match x with
+        | .loopDropped | .abort =>
+          let out :=
+            if !m.bad.isEmpty then "unparsed " ++ String.intercalate " || " m.bad
+            else if t'.viols.isEmpty then s!"ok wf={t'.wf}"
+            else "viol " ++ String.intercalate " | " (t'.viols.map fun v => s!"{propName v.prop}@{v.pos} {v.why}")
+          ({ t := none, bad := [] }, [out])
+        | _ => ({ m with t := some t' }, [])
 
 end Verif.Drv.Core
